@@ -124,6 +124,13 @@ CHECKS = {
         note="Singular forms come from a hand-verified table for the naming pool (not from inflect); staticmethod wrapping of a restored user __new__ is treated as the same object.",
         ref="DESIGN.md section 4, C16",
     ),
+    "C17": dict(
+        level="exploration",
+        technique="signature-vs-behaviour property testing: Hypothesis-generated class worlds; per generated method, enumerated single parameters, keyword pairs, defaults and unadvertised names checked against inspect.signature with behavioural differentials",
+        text="For every generated method (constructor, top-level, scalar and element helpers) of Hypothesis-generated class worlds (incl. nested classes with an init=False attribute and with an overflow attribute) the advertised signature is compared with behaviour: positional parameters also work by keyword, every advertised keyword binds and reaches the behaviour (_inplace returns the receiver, _if=False leaves it untouched, _index/_insert position elements, nested keywords land on the nested object, **overflow keywords land in the overflow attribute - twice with different names), omitted non-virtual parameters equal their advertised default, keyword pairs bind, unadvertised names raise TypeError leaving the receiver unchanged (also with _inplace=True), and the nested keywords equal the init-enabled attributes of the nested class computed from the descriptor.",
+        note="Valid base calls are constructed from the descriptor; binding errors are recognised by message origin; defaults of virtual parameters are documentation only.",
+        ref="DESIGN.md section 4, C17",
+    ),
 }
 
 NOT_YET = "check not built yet in this revision (see DESIGN.md section 9 for the order); nothing is claimed"
